@@ -39,6 +39,7 @@ class _Blank:
 BLANK = _Blank()
 RAISE = ('raise',)
 UNSPEC = ('unspec',)
+WILD = ('wild',)      # eager defect models only: an error value produced by the defect reached an operator / function
 
 
 def V(x):
@@ -66,9 +67,13 @@ def is_plain_num(x):
 
 
 # ------------------------------------------------------------------------------------------------ reference evaluator
-def _operand(o):
+def _operand(o, eager=()):
     """outcome of an operand that is not a plain value -> outcome of the whole operator / function application"""
-    return RAISE if o[0] == 'raise' else UNSPEC
+    if o[0] == 'raise':
+        return RAISE
+    if eager and o[0] in ('err', 'wild'):
+        return WILD
+    return UNSPEC
 
 
 def _seq(nodes, env, eager):
@@ -77,7 +82,7 @@ def _seq(nodes, env, eager):
     for a in nodes:
         o = ev(a, env, eager)
         if o[0] != 'v':
-            return _operand(o), None
+            return _operand(o, eager), None
         vals.append(o[1])
     return None, vals
 
@@ -103,7 +108,7 @@ def ev(n, env, eager=()):
     if k == 'neg':
         o = ev(n[1], env, eager)
         if o[0] != 'v':
-            return _operand(o)
+            return _operand(o, eager)
         return V(-frac(o[1])) if is_num(o[1]) else UNSPEC
     if k == 'bin':
         op = n[1]
@@ -118,15 +123,12 @@ def ev(n, env, eager=()):
         if not (is_num(a) and is_num(b)):
             return UNSPEC
         x, y = frac(a), frac(b)
-        if op == '+':
-            return V(x + y)
-        if op == '-':
-            return V(x - y)
-        if op == '*':
-            return V(x * y)
-        if op == '/':
-            return RAISE if y == 0 else V(x / y)
-        raise ValueError(op)
+        if op == '/' and y == 0:
+            return RAISE
+        r = x + y if op == '+' else x - y if op == '-' else x * y if op == '*' else x / y
+        if r != 0 and not (Fraction(1, 10 ** 300) < abs(r) < 10 ** 300):
+            return UNSPEC                      # outside the comfortable range of doubles: no clause
+        return V(r)
     if k == 'amp':
         bad, vals = _seq([n[1], n[2]], env, eager)
         if bad:
@@ -161,7 +163,7 @@ def ev(n, env, eager=()):
     if k == 'if':
         c = ev(n[1], env, eager)
         if c[0] != 'v':
-            return _operand(c)
+            return _operand(c, eager)
         if not is_num(c[1]):
             return UNSPEC
         if frac(c[1]) != 0:
@@ -173,7 +175,7 @@ def ev(n, env, eager=()):
             outs = []
             for a in args:
                 o = ev(a, env, eager)
-                if o[0] in ('raise', 'unspec'):
+                if o[0] in ('raise', 'unspec', 'wild'):
                     return o
                 outs.append(o)
             for o in outs:
@@ -188,7 +190,7 @@ def ev(n, env, eager=()):
         for i in range(0, len(args), 2):
             c = ev(args[i], env, eager)
             if c[0] != 'v':
-                return _operand(c)
+                return _operand(c, eager)
             if not is_num(c[1]):
                 return UNSPEC
             if frac(c[1]) != 0:
@@ -197,11 +199,11 @@ def ev(n, env, eager=()):
     if k == 'iferror':
         if 'iferror' in eager:
             fb = ev(n[2], env, eager)
-            if fb[0] in ('raise', 'unspec'):
+            if fb[0] in ('raise', 'unspec', 'wild'):
                 return fb
         x = ev(n[1], env, eager)
-        if x[0] == 'unspec':
-            return UNSPEC
+        if x[0] in ('unspec', 'wild'):
+            return x
         if x[0] in ('raise', 'err'):
             return ev(n[2], env, eager)
         return x
@@ -210,6 +212,8 @@ def ev(n, env, eager=()):
 
 def agree(got, exp, Empty):
     """Does the observed result `got` (value or codec.Raised) satisfy the reference outcome `exp`?"""
+    if exp[0] == 'wild':
+        return True
     if exp[0] == 'raise':
         return isinstance(got, codec.Raised) or (type(got) is str and got in ERRS)
     if isinstance(got, codec.Raised):
@@ -398,7 +402,7 @@ def classify(ast, env, got, Empty, where):
         o = ev(ast, env, eager=mode)
         if o[0] != 'unspec' and agree(got, o, Empty):
             if mode == ('ifs',):
-                return 'C13.ifs.eager_args_raise' if isinstance(got, codec.Raised) else 'C13.ifs.eager_error_scan'
+                return 'C13.ifs.eager_args_raise' if (isinstance(got, codec.Raised) and o[0] != 'wild') else 'C13.ifs.eager_error_scan'
             if mode == ('iferror',):
                 return 'C13.iferror.eager_fallback'
             return 'C13.ifs+iferror.eager'
@@ -472,7 +476,7 @@ def eval_batch(job):
                 if not agree(got, exp, Empty):
                     out['failures'].append({
                         'key': classify(asts[i], env, got, Empty, where),
-                        'what': f'={t} with {_fmt_assign(assign)} -> {got!r}, expected {show(exp)}',
+                        'what': f'={_one_line(t)} with {_fmt_assign(assign)} -> {got!r}, expected {show(exp)}',
                         'size': len(t),
                         'replay': {'kind': 'nest', 'formula': t, 'ast': formulas[i][1], 'assign': assign}})
     # keep the smallest witness per key inside the batch
@@ -482,6 +486,10 @@ def eval_batch(job):
             best[f['key']] = f
     out['failures'] = list(best.values())
     return out
+
+
+def _one_line(t):
+    return t.replace('\n', '\\n')
 
 
 def _fmt_assign(assign):
@@ -589,9 +597,12 @@ class Gen:
 V_MID = [None, lambda e: ('bin', '+', e, lit(1)), lambda e: ('bin', '*', lit(2), e), lambda e: ('neg', e), lambda e: ('paren', e),
          lambda e: ('fn', 'SUM', (e, lit(100))), lambda e: ('bin', '-', lit(10), e), lambda e: ('bin', '/', e, lit(2))]
 C_MID = [None, lambda e: ('fn', 'AND', (e, lit(True))), lambda e: ('fn', 'OR', (lit(False), e)), lambda e: ('paren', e)]
+# the library's backtracking parser needs ~5x more time per function level, so deeper nests are wrapped by operators only
+V_MID_LIGHT = [w for i, w in enumerate(V_MID) if i != 5]
+C_MID_LIGHT = [None, lambda e: ('paren', e), None]
 
 
-def build(path, role, g, mid=0):
+def build(path, role, g, mid=0, light=False):
     """path = [(shape, slot), ..., (shape, None)]: the construct at path[i+1] sits in slot `slot` of path[i]."""
     shape, slot = path[0]
     kinds = SHAPES[shape][1]
@@ -599,8 +610,9 @@ def build(path, role, g, mid=0):
     for i, kind in enumerate(kinds):
         if i == slot and len(path) > 1:
             sub_role = 'c' if (kind == 'c' or role == 'c') else 'v'
-            sub = build(path[1:], sub_role, g, mid)
-            wrap = (C_MID if sub_role == 'c' else V_MID)[mid % (len(C_MID) if sub_role == 'c' else len(V_MID))]
+            sub = build(path[1:], sub_role, g, mid, light)
+            mids = (C_MID_LIGHT if light else C_MID) if sub_role == 'c' else (V_MID_LIGHT if light else V_MID)
+            wrap = mids[mid % len(mids)]
             fills.append(wrap(sub) if wrap else sub)
         else:
             fills.append(g.leaf(kind, role, first_v))
@@ -647,6 +659,8 @@ CONTEXTS = [
     ('IFERROR(12/E,-1)', lambda e, g: ('iferror', ('bin', '/', lit(12), e), lit(-1))),
 ]
 SEPS = [',', ';', ', ', ' ;\n ']
+HEAVY_CTX = [i for i, (name, _) in enumerate(CONTEXTS) if '(' in name and not name.startswith('(E)')]
+LIGHT_CTX = [i for i in range(len(CONTEXTS)) if i not in HEAVY_CTX]
 
 
 def chains(depth):
@@ -666,14 +680,18 @@ def chain_name(path):
 
 
 def gen_chain_formulas(depth, fms, ctx_ids, start=0):
-    """[(text, ast)] for every chain of the depth x fail mode x context index (deterministic)."""
+    """[(text, ast)] for every chain of the depth x fail mode x context index (deterministic).  At depth 3 the wrappers
+    between the levels are operators only and 5 of 6 outer positions are operator positions."""
     out = []
     n = start
     for path in chains(depth):
         for fm in fms:
             for ci in ctx_ids(n):
                 g = Gen(fm, start=n)
-                e = build(path, 'v', g, mid=n)
+                if depth >= 3:
+                    ci = HEAVY_CTX[ci % len(HEAVY_CTX)] if n % 12 == 5 else LIGHT_CTX[ci % len(LIGHT_CTX)]
+                # a function position outside and a function wrapper between the levels are not combined (parser cost)
+                e = build(path, 'v', g, mid=n, light=depth >= 3 or (depth == 2 and ci % len(CONTEXTS) in HEAVY_CTX))
                 ast = CONTEXTS[ci % len(CONTEXTS)][1](e, g)
                 out.append((render(ast, SEPS[n % len(SEPS)]), ast))
                 n += 1
@@ -690,7 +708,7 @@ def gen_random_tree(rng, depth, role, g):
             sub_role = 'c' if (kind == 'c' or role == 'c') else 'v'
             g.fm = rng.choice([0, 0, 1, 2, 3])
             sub = gen_random_tree(rng, depth - 1, sub_role, g)
-            mids = C_MID if sub_role == 'c' else V_MID
+            mids = (C_MID if depth == 2 else C_MID_LIGHT) if sub_role == 'c' else (V_MID if depth == 2 else V_MID_LIGHT)
             wrap = rng.choice(mids)
             fills.append(wrap(sub) if wrap else sub)
         else:
@@ -706,7 +724,7 @@ def gen_random_formulas(rng, count):
     for n in range(count):
         g = Gen(0, start=rng.randrange(4))
         e = gen_random_tree(rng, 3, 'v', g)
-        ast = rng.choice(CONTEXTS)[1](e, g)
+        ast = CONTEXTS[rng.choice(HEAVY_CTX) if rng.random() < 0.2 else rng.choice(LIGHT_CTX)][1](e, g)
         out.append((render(ast, rng.choice(SEPS)), ast))
     return out
 
@@ -809,6 +827,11 @@ def basic_formulas():
     for a, b in itertools.permutations(VARS, 2):
         out.append(('if', ref(a), ref(b), ref(a)))
         out.append(('iferror', ('bin', '/', ref(a), ref(b)), ref(a)))
+    # duplicates: the same condition in two pairs, the same cell as condition and both branches
+    out.append(('ifs', (ref('A1'), lit(1), ref('A1'), lit(2))))
+    out.append(('ifs', (ref('A1'), lit(1), ref('A2'), lit(2), ref('A1'), lit(3), ref('A2'), lit(4))))
+    out.append(('if', ref('A1'), ref('A1'), ref('A1')))
+    out.append(('iferror', ref('A4'), ref('A4')))
     # the same IFS sub-expression twice in one cell (sub-expressions are cached by their text per cell)
     e = ('ifs', (ref('A1'), lit(1), lit(True), lit(2)))
     out.append(('bin', '+', e, e))
@@ -863,7 +886,7 @@ def helper_cases(cls):
             E2PyclExecutorException('x'), RecursionError('r'), OverflowError('o'), AssertionError('s'), StopIteration(),
             ArithmeticError('m'), LookupError('l'), RuntimeError('u'), NotImplementedError('n'), OSError('os'),
             UnicodeDecodeError('utf-8', b'x', 0, 1, 'u'), MemoryError(), NameError('nm'), Exception('plain'),
-            datetime.datetime.strptime and ValueError('time data'), FloatingPointError('f')]
+            BufferError('b'), FloatingPointError('f')]
     cases = []
     for e in excs:
         cases.append((f'raise:{type(e).__name__}', _raiser(e), 'fb'))
@@ -1410,14 +1433,16 @@ def run(tier='quick', seed=0):
     d1 = gen_chain_formulas(1, [0, 1, 2, 3], lambda n: all_ctx)
     if thorough:
         d2 = gen_chain_formulas(2, [0, 1, 2, 3], lambda n: [n, n + 7, n + 13, n + 19, n + 23])
-        d3 = gen_chain_formulas(3, [0, 1, 2, 3], lambda n: [n, n + 11])
-    else:
-        d2 = gen_chain_formulas(2, [0, 1, 2, 3], lambda n: [n + seed, n + seed + 17])
         d3all = gen_chain_formulas(3, [0, 1, 2, 3], lambda n: [n + seed])
-        # every chain once, the fail mode rotating with the chain index (4 formulas per chain were generated)
-        d3 = [d3all[4 * i + (i + seed) % 4] for i in range(len(d3all) // 4) if (i + seed) % 3 == 0]
+        # every chain with two of the four fail modes (rotating with the chain index)
+        d3 = [d3all[4 * i + (i + seed + k) % 4] for i in range(len(d3all) // 4) for k in (0, 2)]
+    else:
+        d2 = gen_chain_formulas(2, [0, 1, 2, 3], lambda n: [n + seed])
+        d3all = gen_chain_formulas(3, [0, 1, 2, 3], lambda n: [n + seed])
+        # every ninth chain (rotating with the seed), the fail mode rotating with the chain index
+        d3 = [d3all[4 * i + (i + seed) % 4] for i in range(len(d3all) // 4) if (i + seed) % 9 == 0]
     chain_sets = {1: dedupe(d1), 2: dedupe(d2), 3: dedupe(d3)}
-    rnd = dedupe(gen_random_formulas(rng, 3000 if thorough else 250))
+    rnd = dedupe(gen_random_formulas(rng, 600 if thorough else 50))
     nest_assigns = truth_assignments(rng, 3 if thorough else 1)
     # ---- jobs for one pool
     jobs = []
@@ -1425,9 +1450,9 @@ def run(tier='quick', seed=0):
     def add(group, where, formulas, assigns, chunk):
         for i in range(0, len(formulas), chunk):
             jobs.append({'type': 'nest', 'group': group, 'where': where, 'formulas': formulas[i:i + chunk], 'assigns': assigns})
-    add('d3', 'nest', chain_sets[3], nest_assigns, 50)
-    add('rnd', 'nest', rnd, nest_assigns, 50)
-    add('d2', 'nest', chain_sets[2], nest_assigns, 60)
+    add('d3', 'nest', chain_sets[3], nest_assigns, 14 if not thorough else 40)
+    add('rnd', 'nest', rnd, nest_assigns, 5 if not thorough else 20)
+    add('d2', 'nest', chain_sets[2], nest_assigns, 27 if not thorough else 60)
     add('d1', 'nest', chain_sets[1], nest_assigns, 60)
     add('basic', 'basic', basic, basic_assigns, 90)
     add('long', 'ifs_long', longs, basic_assigns[:16], 4)
@@ -1482,12 +1507,12 @@ def run(tier='quick', seed=0):
     checks.append(_mk_check(
         'C13.monitor.nest_chains',
         bound=f'6 construct shapes (IF/3, IF/2, IFS 1 pair, IFS 2 pairs, IFS 2 pairs + TRUE default, IFERROR); every chain of nesting depth 1 '
-              f'(6), 2 (108) and 3 ({"all 1944" if thorough else "648 of 1944, rotating with the seed"}): each construct in each condition / '
+              f'(6), 2 (108) and 3 ({"all 1944, two fail modes each" if thorough else "216 of 1944, rotating with the seed, one fail mode each"}): each construct in each condition / '
               'branch / guarded / fallback slot of its parent, optionally wrapped in + * - / unary minus, brackets, SUM, AND, OR between the '
-              'levels; x fail modes {no failing leaf, untaken/taken branches 1/0 and =1/0 cell, error-value cells #N/A #DIV/0!, 1/variable and '
+              'levels (operators only at depth 3: the library parser needs ~5x time per function level); x fail modes {no failing leaf, untaken/taken branches 1/0 and =1/0 cell, error-value cells #N/A #DIV/0!, 1/variable and '
               f'1/zero-cell}} x {len(CONTEXTS)} outer positions (bare; operand of + - * / unary minus and of = <> < >= > without user brackets, '
               'left and right; argument of SUM MAX MIN AND OR ROUND; &; next to a second IF; inside IFERROR(12/E,-1)) - all positions at '
-              f'depth 1, {"5" if thorough else "2"} per formula at depth 2, {"2" if thorough else "1"} at depth 3; separators , ; and line '
+              f'depth 1, {"5" if thorough else "1"} per formula at depth 2, 1 at depth 3 (function positions for 1 formula in 12 there); separators , ; and line '
               f'breaks; {len(chain_sets[1])}+{len(chain_sets[2])}+{len(chain_sets[3])} formulas x {len(nest_assigns)} states (constants + all 16 '
               f'truth vectors of A1..A4 {"x 3 draws" if thorough else ""} with representations of true/false drawn by seed)',
         rule='one evaluation = one (formula, state) value or exception compared with the lazy reference evaluator; a reference outcome '
